@@ -97,7 +97,9 @@ extern "C" void h_blockproof()
         VASSERT(w_eq(div_log[0].a, w_sub(two256, t1)) && w_eq(div_log[0].b, t1), "dividend = 2^256 - (target+1), divisor = target+1");
         VASSERT(w_eq(got, w_add(div_log[0].q, w_u64(1))) && got.l[4] == 0, "work = quotient + 1 = floor(2^256 / (target + 1))");
 #endif
+#if EXP <= 34    // from exponent 0x23 on every non-zero mantissa overflows: no valid target exists in the shape
         VWITNESS(got.l[0] > 1 || got.l[1] != 0, "work above one");
+#endif
     }
     VWITNESS(!valid && t.negative, "negative target");
 #if EXP > 34
